@@ -56,6 +56,23 @@ EnvelopeFails(t) ==
            ELSE {"batch item without exactly one ResultStatus"})
           : i \in DOMAIN items}
 
+\* The request envelope, as far as C12 needs an oracle that does not depend on the implementation's decoder:
+\* RequestMessage(420078) = RequestHeader(420077){... BatchCount(42000D)} BatchItem(42000F)*, and the batch count is the
+\* number of batch items.  A request that announces MORE items than it holds cannot be "fully decoded" by anybody.
+\* (The library's decoder reads exactly BatchCount items and ignores what follows, so a request announcing FEWER items than
+\* it holds is decoded as its announced prefix; that leniency is not covered by the property and is not alarmed.)
+TagRequestMessage == 4325496   \* 420078
+TagRequestHeader  == 4325495   \* 420077
+RequestCountFails(t) ==
+    IF t.tag # TagRequestMessage \/ t.typ # TStructure THEN {}
+    ELSE IF Len(Kids(t)) = 0 \/ Kids(t)[1].tag # TagRequestHeader \/ Kids(t)[1].typ # TStructure THEN {}
+    ELSE LET h == Kids(t)[1]
+             items == SelectSeq(Tail(Kids(t)), LAMBDA k : k.tag = TagBatchItem) IN
+         IF HasKid(h, TagBatchCount) /\ Kid(h, TagBatchCount).typ = TInteger
+            \* (a negative count is read as "no items" by the library and answered with an empty batch: nothing is executed)
+            /\ Kid(h, TagBatchCount).val[1] < 128 /\ NatOf(Kid(h, TagBatchCount)) > Len(items)
+         THEN {"request BatchCount exceeds the number of batch items"} ELSE {}
+
 \* version carried by a response header, as major*10+minor (-1 if unreadable)
 VersionOf(t) ==
     IF EnvelopeFails(t) \cap {"not a ResponseMessage", "no ResponseHeader first", "ProtocolVersion missing or malformed"} # {} THEN -1
